@@ -4,7 +4,14 @@ package xtype
 
 // Contracts for package xtype (comment-only; checked by /verif/engine).
 
+//@ pred b2i(b bool) int = ite(b, 1, 0)
+
+//@ pred ShapeCount(t *Type) int = b2i(t.Pointer) + b2i(t.Basic) + b2i(t.Map) + b2i(t.List) + b2i(t.Struct) + b2i(t.Interface) + b2i(t.Signature) + b2i(t.Chan)
+
+// Object invariant of *xtype.Type: established by TypeOf/applyTo (the only writers
+// of the shape fields), assumed wherever a *Type is dereferenced.
 //@ typeinv Type(t) = t.T != nil
+//@     && ShapeCount(t) <= 1
 //@     && (t.Pointer ==> t.PointerInner != nil)
 //@     && (t.Basic ==> t.BasicType != nil)
 //@     && (t.Named ==> t.NamedType != nil)
@@ -12,4 +19,24 @@ package xtype
 //@     && (t.List ==> t.ListInner != nil)
 //@     && (t.Map ==> t.MapKey != nil && t.MapValue != nil)
 //@     && (t.ListFixed ==> t.List)
-//@     && (t.Func ==> t.FuncType != nil)
+//@     && (t.Func ==> t.FuncType != nil && t.Signature)
+
+//@ func Accessible
+//@   props C01 C03
+//@   pure
+//@   requires obj != nil
+//@   ensures result == (obj.Exported() || obj.Pkg() == nil || obj.Pkg().Path() == outputPackagePath)
+
+//@ func Type.Enum
+//@   props C08
+//@   requires t != nil && cfg != nil
+//@   assigns t.enum
+//@   ensures result != nil
+//@   ensures !t.Named ==> !result.OK
+//@   ensures t.Named ==> t.enum == result
+
+//@ func loadEnum
+//@   props C08
+//@   requires cfg != nil && t != nil
+//@   assigns nothing
+//@   ensures result != nil
